@@ -52,7 +52,7 @@ def run_pdf(shard, ctx):
             tag = ("c13", kind, D, R)
             Sp = objs.spd_batch(D, R, vi, seed, tag + ("p",), diag=diag)
             mp_ = objs.vec_batch(D, R, vi, seed, tag + ("p",))
-            for prep, mkp, mu_e, Sig_e in objs.pdf_variants(kind, Sp, mp_, which=("fresh", "sliced_neg", "updated", "Sigma+Lambda+lndet", "replaced_mu", "prod_conjugate", "conditioned", "prod_linear", "prod_constant") if vi == 0 else ("fresh",)):
+            for prep, mkp, mu_e, Sig_e in objs.pdf_variants(kind, Sp, mp_, which=("fresh", "sliced_neg", "updated", "Sigma+Lambda+lndet", "replaced_mu", "prod_conjugate", "conditioned", "prod_linear", "prod_constant", "hadamard_onerank", "multiply_onerank", "joint_of_cond") if vi == 0 else ("fresh",)):
               if ctx.case(dict(what="entropy", R=R, vi=vi, prep=prep)):
                 with ctx.guard("entropy.call", dict(prep=prep)):
                     p = mkp()
@@ -75,6 +75,7 @@ def run_pdf(shard, ctx):
                     ctx.close("kl.history_self_zero", np.asarray(same.kl_divergence(p)), np.zeros(R), tol=1e-9, facts=dict(prep=prep))
                     q1 = objs.mk_pdf("GaussianPDF", objs.spd_batch(D, 1, vi + 3, seed, tag + ("q1",)), objs.vec_batch(D, 1, vi + 3, seed, tag + ("q1",)))
                     ctx.close("kl.history_value", np.asarray(p.kl_divergence(q1)), np.array([rm.kl(mu_e[r], Sig_e[r], np.asarray(q1.mu)[0], np.asarray(q1.Sigma)[0]) for r in range(R)]), facts=dict(prep=prep))
+                    ctx.close("kl.history_value_second", np.asarray(q1.kl_divergence(p)), np.array([rm.kl(np.asarray(q1.mu)[0], np.asarray(q1.Sigma)[0], mu_e[r], Sig_e[r]) for r in range(R)]), facts=dict(prep=prep))
                 if vi == 0 and R == 2:
                     ctx.sample(dict(shard=shard["id"], what="entropy", Sigma=Sp, mu=mp_))
             for lay in ("RR", "1R", "R1"):
@@ -131,6 +132,16 @@ def run_cond(shard, ctx):
         cond, kw, (M, b, Sy) = objs.mk_cond(kind, M, b, Sy, ctor=ctor)
         p_x = objs.mk_pdf(pxk, Sx, mx)
         facts = dict(M_is_zero=zero, ctor=ctor)
+        if vi == 100 and Dx >= 2 and ctor == "Sigma":
+            # the prior is itself the joint produced by another linear conditional (its own effective moments are the reference)
+            for lab, mkp, mx_e, Sx_e in objs.pdf_variants("GaussianPDF", Sx, mx, which=("joint_of_cond",)):
+                with ctx.guard("prepare.prior_" + lab, facts) as g:
+                    p_x = mkp()
+                if g.ok:
+                    mx, Sx = mx_e, Sx_e
+                    facts["prior"] = lab
+                else:
+                    p_x = objs.mk_pdf(pxk, Sx, mx)
         Hc = np.zeros(R)
         I = np.zeros(R)
         for rc in range(Rc):
